@@ -200,9 +200,10 @@ RULES = [m1, m2, m3, m3b, m3c]
 @rule("M5", doc="every match found is applied: the applier loop visits all substitutions; the only skip is the rule's own condition")
 def m5(ctx):
     crate = ctx.lib()
-    bs = [b for b in crate.by_name.get("apply_substs_cond", []) if b.kind != "Closure"]
+    # the applier of a pattern rule: the body (a function or the boxed closure itself) of rewrite/mod.rs that unites instantiations
+    bs = [b for b in crate.bodies.values() if (b.file or "").endswith("rewrite/mod.rs") and any(c.callee and c.callee.name == "union_instantiations" and not b.blocks[c.bb]["cleanup"] for c in b.calls)]
     if len(bs) != 1:
-        raise mir.AnchorMissing("Rewrite::apply_substs_cond")
+        raise mir.AnchorMissing("the applier of pattern rules (calls union_instantiations in rewrite/mod.rs)", "found %d" % len(bs))
     b = bs[0]
     lp = [l for l in C.iterator_loops(b) if role_mentions_param(l[1], "substs")]
     ctx.check(len(lp) == 1 and C.loop_exhaustive(b, lp[0]), "all-substitutions-applied", "the applier visits every substitution the searcher found",
@@ -212,7 +213,9 @@ def m5(ctx):
     for c in un:
         C.check_only_allowed_skips(ctx, b, c.bb, [("true", lambda t, cond: t.startswith("call(cond"))], "applier", "uniting the two sides of a match")
         a = [strip_role(b.role_of_operand(x)) for x in c.args]
-        ok = a[1] == ("param", "a") and a[2] == ("param", "b") and role_mentions_param(a[3], "substs")
+        lhs_ok = a[1] == ("param", "a") or (role_mentions_param(a[1], "a") and not role_mentions_param(a[1], "b"))
+        rhs_ok = a[2] == ("param", "b") or (role_mentions_param(a[2], "b") and not role_mentions_param(a[2], "a"))
+        ok = lhs_ok and rhs_ok and role_mentions_param(a[3], "substs")
         ctx.check(ok, "applier-unites-lhs-rhs", "the applier unites pattern a with pattern b under the matched substitution",
                   "the applier calls union_instantiations(%s, %s, %s)" % (role_str(a[1]), role_str(a[2]), role_str(a[3])[:60]), where_of(b, c.bb))
     # Rewrite::new_if wires ematch_all(lhs) to the searcher and this applier with the same lhs
@@ -221,10 +224,11 @@ def m5(ctx):
         n = ni[0]
         srch = [c for sub in n.all_bodies() for c in sub.calls if c.callee and c.callee.name == "ematch_all"]
         appl = [c for sub in n.all_bodies() for c in sub.calls if c.callee and c.callee.target == b.id]
-        ok = len(srch) == 1 and len(appl) == 1
+        inline_applier = crate.root_of(b).id == n.id and bool(un)
+        ok = len(srch) == 1 and (len(appl) == 1 or inline_applier)
         if ok:
             sp = strip_role(srch[0].body.role_of_operand(srch[0].args[1]))
-            ap = strip_role(appl[0].body.role_of_operand(appl[0].args[2]))
+            ap = strip_role(appl[0].body.role_of_operand(appl[0].args[2])) if appl else strip_role(b.role_of_operand(un[0].args[1]))
             # both derive from the parsed left pattern `a` (the applier gets a clone)
             ok = role_mentions_call(sp, "parse") and role_mentions_call(ap, "parse") and role_str(sp).count("param") == role_str(ap).count("param")
         ctx.check(ok, "searcher-and-applier-share-lhs", "the searcher matches the same left pattern the applier instantiates", "Rewrite::new_if wires different left patterns into searcher and applier", where_of(n))
